@@ -190,3 +190,17 @@ Proof.
       destruct (o1 || o2 || o3); inversion Hw; reflexivity. }
   now rewrite <- Hmb.
 Qed.
+
+(* one more box of [bytes] bytes (name + contents) raises the requirement by the flat box price
+   plus the per-byte price *)
+Lemma spec_min_balance_box_step P x bytes :
+  spec_min_balance P (set_box_counts x (a_boxes x + 1) (a_boxbytes x + bytes)) < 2 ^ 64 - 1 ->
+  spec_min_balance P (set_box_counts x (a_boxes x + 1) (a_boxbytes x + bytes)) =
+  spec_min_balance P x + p_boxflat P + p_boxbyte P * bytes.
+Proof.
+  unfold spec_min_balance. cbn [set_box_counts a_assets a_appparams a_applocals a_schema_u a_schema_b a_extrapages a_boxes a_boxbytes].
+  generalize (spec_schema_cost P (a_schema_u x) (a_schema_b x)) (p_minbal P * a_assets x)
+    (p_appflatparams P * a_appparams x) (p_appflatoptin P * a_applocals x)
+    (p_appflatparams P * a_extrapages x).
+  intros. rewrite !N.mul_add_distr_l, N.mul_1_r in *. unfold cap in *. lia.
+Qed.
